@@ -137,6 +137,10 @@ def program_for(bp, decl, seed, horizon=HORIZON, with_ic=None, region_mode='rand
             prog.append({'op': 'Query', 'what': what, 'country': d['cc']})
         for x in d['extra']:
             prog.append({'op': 'AddVariable', 'sector': ref(s), 'name': x, 'desc': 'extra demand', 'eqn': '0.0'})
+        for x in d.get('params', []):
+            # user parameters; EXP_<v> is defined as exactly the local variable <v>
+            prog.append({'op': 'AddVariable', 'sector': ref(s), 'name': x, 'desc': 'user parameter',
+                         'eqn': x[4:] if x.startswith('EXP_') else '0.02'})
         if d['aw']:
             w = params[s]['wgt'] / len(d['aw'])
             prog.append({'op': 'AssetWeighting', 'sector': ref(s),
